@@ -102,15 +102,27 @@ def gen_cases(ctx, scale=1.0, modes=('generate', 'verify')):
             c['cb'] = rng.choice([None, {'table': {}}])
         else:
             c['cb'] = rng.choice([None, {'table': {}}])
+            # a listed file that changed its size after the torrent was made: the reader's generator yields an error
+            # item for it, which generate() raises whatever the callback and the interval are
+            if rng.random() < 0.2:
+                for i in rng.sample(range(len(sizes)), rng.choice([1, 1, 2]) if len(sizes) > 1 else 1):
+                    if sizes[i] > 0:
+                        # (not down to 0 bytes: generate() refuses a tree without any content before it starts)
+                        c['disk'][i] = rng.choice([sizes[i] + 1] + ([sizes[i] - 1] if sizes[i] > 1 else []))
         cases.append(c)
     return cases
+
+
+def needs_c02(c):
+    """the sequential model classifies the reader's items: every verify case, and generate on a damaged disk"""
+    return c['mode'] == 'verify' or any(d != 'ok' for d in c['disk'])
 
 
 def model_cfg(c, c02reply):
     if c['mode'] == 'generate':
         total = sum(c['sizes'])
         n = (total + c['L'] - 1) // c['L']
-        items = ['data'] * n
+        items = ['data'] * n if c02reply is None else _kinds_from_c02(c02reply)
         raise_on_bad = True
     else:
         items = _kinds_from_c02(c02reply)
@@ -124,7 +136,10 @@ def model_cfg(c, c02reply):
 def expected_outcome(c, c02reply):
     """sequential reference = what the specification demands of the outcome (no cancel/faults)"""
     if c['mode'] == 'generate':
-        return {'returned': True}
+        if c02reply is None or not c02reply['bad']:
+            return {'returned': True}
+        # the error of one of the files whose size changed (GenerateCallback raises it with or without a callback)
+        return {'raised_any_of': [{'kind': e[1], 'file': e[0]} for e in c02reply['bad']]}
     if c['cb'] is None:
         r = c02reply['nocb']
         if 'ok' in r:
@@ -157,7 +172,7 @@ def _match_expected(exp, res):
 
 def evaluate(ctx, drv, cases, prop='C03'):
     # sequential model (C02) for verify cases: item kinds + expected outcome
-    vidx = [i for i, c in enumerate(cases) if c['mode'] == 'verify']
+    vidx = [i for i, c in enumerate(cases) if needs_c02(c)]
     c02 = drv.run([{'op': 'c02.verify', 'L': cases[i]['L'], 'sizes': cases[i]['sizes'], 'disk': cases[i]['disk'],
                     'flips': cases[i]['flips'], 'single': False, 'pathIsDir': True} for i in vidx])
     c02by = dict(zip(vidx, c02))
